@@ -442,3 +442,55 @@ Proof.
   (* the middle element of an odd segment stays where it is - and is its own mirror image *)
   f_equal. lia.
 Qed.
+
+Lemma fold_lswap_length : forall ps (l : list tuple), length (fold_left lswap ps l) = length l.
+Proof. induction ps as [|p ps IH]; intros l; [reflexivity|]. cbn [fold_left]. rewrite IH. apply lswap_length. Qed.
+
+(* std::rotate(begin + a, begin + b, begin + c), as three reversals: position k of [a, c) ends up
+   holding what position k + (b - a) held (cyclically inside [a, c)) *)
+Theorem rotate_elementwise (l : list tuple) a b c : (a <= b)%nat -> (b <= c)%nat -> (c <= length l)%nat -> forall k,
+  nth k (fold_left lswap (rev_pairs_nat a b ++ rev_pairs_nat b c ++ rev_pairs_nat a c) l) [] =
+  if ((a <=? k) && (k <? c))%nat
+  then (if (k <? a + (c - b))%nat then nth (k + (b - a)) l [] else nth (k - (c - b)) l [])
+  else nth k l [].
+Proof.
+  intros Hab Hbc Hcl k. rewrite !fold_left_app.
+  set (l1 := fold_left lswap (rev_pairs_nat a b) l).
+  set (l2 := fold_left lswap (rev_pairs_nat b c) l1).
+  assert (H1 : length l1 = length l) by apply fold_lswap_length.
+  assert (H2 : length l2 = length l) by (unfold l2; rewrite fold_lswap_length; exact H1).
+  rewrite (reverse_elementwise l2 a c ltac:(lia) ltac:(lia) k).
+  assert (E2 : forall j, nth j l2 [] = if ((b <=? j) && (j <? c))%nat then nth (b + c - 1 - j) l1 [] else nth j l1 []).
+  { intros j. exact (reverse_elementwise l1 b c Hbc ltac:(lia) j). }
+  assert (E1 : forall j, nth j l1 [] = if ((a <=? j) && (j <? b))%nat then nth (a + b - 1 - j) l [] else nth j l []).
+  { intros j. exact (reverse_elementwise l a b Hab ltac:(lia) j). }
+  destruct (Nat.leb_spec a k) as [Hak|Hak]; destruct (Nat.ltb_spec k c) as [Hkc|Hkc]; cbn [andb].
+  - rewrite E2.
+    destruct (Nat.leb_spec b (a + c - 1 - k)) as [Hb1|Hb1]; destruct (Nat.ltb_spec (a + c - 1 - k) c) as [Hc1|Hc1]; cbn [andb]; try (exfalso; lia).
+    + rewrite E1.
+      destruct (Nat.leb_spec a (b + c - 1 - (a + c - 1 - k))); destruct (Nat.ltb_spec (b + c - 1 - (a + c - 1 - k)) b); cbn [andb]; try (exfalso; lia).
+      destruct (Nat.ltb_spec k (a + (c - b))); [|exfalso; lia]. f_equal. lia.
+    + rewrite E1.
+      destruct (Nat.leb_spec a (a + c - 1 - k)); destruct (Nat.ltb_spec (a + c - 1 - k) b); cbn [andb]; try (exfalso; lia).
+      destruct (Nat.ltb_spec k (a + (c - b))); [exfalso; lia|]. f_equal. lia.
+  - rewrite E2.
+    destruct (Nat.leb_spec b k); destruct (Nat.ltb_spec k c); cbn [andb]; try (exfalso; lia).
+    rewrite E1. destruct (Nat.leb_spec a k); destruct (Nat.ltb_spec k b); cbn [andb]; try (exfalso; lia). reflexivity.
+  - rewrite E2.
+    destruct (Nat.leb_spec b k); destruct (Nat.ltb_spec k c); cbn [andb]; try (exfalso; lia).
+    rewrite E1. destruct (Nat.leb_spec a k); destruct (Nat.ltb_spec k b); cbn [andb]; try (exfalso; lia). reflexivity.
+  - exfalso; lia.
+Qed.
+
+Theorem rotate_refines L : wf_plist L = true -> has_varying L = false ->
+  forall v l offs a b c, RepO L v l offs -> (a <= b)%nat -> (b <= c)%nat -> (c <= length l)%nat ->
+  RepO L (fst (swaps L true v v (rev_pairs (Z.of_nat a) (Z.of_nat b) ++ rev_pairs (Z.of_nat b) (Z.of_nat c) ++
+                                  rev_pairs (Z.of_nat a) (Z.of_nat c))))
+       (fold_left lswap (rev_pairs_nat a b ++ rev_pairs_nat b c ++ rev_pairs_nat a c) l) offs.
+Proof.
+  intros Hwf Hv v l offs a b c R Hab Hbc Hcl.
+  rewrite <- (rev_pairs_nat_Z a b Hab), <- (rev_pairs_nat_Z b c Hbc), <- (rev_pairs_nat_Z a c ltac:(lia)).
+  rewrite <- !map_app.
+  apply (swaps_refine_exchanges L Hwf Hv _ (length l) v l offs R eq_refl).
+  apply Forall_app. split; [|apply Forall_app; split]; apply rev_pairs_nat_valid; lia.
+Qed.
